@@ -44,10 +44,14 @@ try:
             return summ, "\n".join(failed)
         for d, interp in ((demo_sh, "bash"), (demo_py, "python3")):
             if os.path.exists(d):
-                rc, o = sh("cargo build --offline 2>&1 | tail -3", wt)
-                env_bin = os.path.join(TGT, "debug", "walleye")
-                rc, o = sh("WALLEYE_BIN=%s WT=%s %s %s" % (env_bin, wt, interp, d), wt, timeout=900)
-                return ("ok" if rc == 0 else "FAILED", "rc=%d" % rc, ""), o[-600:]
+                # the scripts locate the tree as <worktree>/SEED/<variant>/demo.* and build <worktree>/target
+                inner = os.path.join(wt, "SEED", os.path.basename(seed.rstrip("/")))
+                os.makedirs(inner, exist_ok=True)
+                shutil.copy(d, inner)
+                p = subprocess.run("%s %s" % (interp, os.path.join(inner, os.path.basename(d))), cwd=wt, shell=True, stdout=subprocess.PIPE,
+                                   stderr=subprocess.STDOUT, text=True, timeout=2400,
+                                   env={k: v for k, v in dict(os.environ, CARGO_NET_OFFLINE="true").items() if k != "CARGO_TARGET_DIR"})
+                return ("ok" if p.returncode == 0 else "FAILED", "rc=%d" % p.returncode, ""), p.stdout[-600:]
         return None, "no demonstration found"
 
     # 3. unchanged tree + demo passes
